@@ -221,13 +221,15 @@ func msgSetShape(k int, side string) []sess.MsgSpec {
 		for i := 0; i < 5; i++ {
 			add(0)
 		}
+	case k == 11+2*nMsgVariants: // MIDs that differ only in the case of their letters, and lower-case MIDs, in one block
+		out = append(out, msgVariant(0, side+"casemid001"), msgVariant(1, side+"CASEMID001"), msgVariant(0, side+"lowcasemid1"))
 	default:
 		panic("no such shape")
 	}
 	return out
 }
 
-const nMsgShapes = 11 + 2*nMsgVariants
+const nMsgShapes = 11 + 2*nMsgVariants + 1
 
 // ---- wire parsing (by the independent reference) ----------------------------------------------
 
